@@ -23,6 +23,7 @@ type Item struct {
 // Double / Neg: two different (side-effect free) methods on one receiver: the receiver atom is shared by two wrappers.
 func (s *Sub) Double() int64 { return 2 * s.V }
 func (s *Sub) Neg() int64    { return -s.V }
+func (s *Sub) IsPos() bool   { return s.V > 0 }
 
 func (it *Item) Expensive() bool {
 	it.Calls++
